@@ -1,8 +1,20 @@
 import Uflow.Model.FrameQ
+import Uflow.Lemmas.FrameQAckGroup
+import Uflow.Lemmas.FrameQExamples
+import Uflow.Lemmas.FrameQNoTrap
 
 /-!
 # C15 — only genuine, fresh acknowledgements change sender state
-(Theorems are being added; see `Uflow/Lemmas/FrameQ.lean`.)
+
+Vocabulary (for an ack group `ack` and a frame-queue state `s`):
+* `n := bitfieldSize ack.bitfield`; the *covered* ids are `wadd32 ack.baseId i` for `i < n`;
+* the *claimed* ids are the covered ones with bit `i` set (`ack.bitfield / 2^i % 2 = 1`);
+* `claimedNonce s ack` (`Uflow/Lemmas/FrameQAck.lean`) is the XOR, over the claimed `i`, of the
+  `nonce` of the logged frame `getFrame s (wadd32 ack.baseId i)`.
+
+Helper lemmas: `Uflow/Lemmas/FrameQAck.lean`, `Uflow/Lemmas/FrameQAckGroup.lean`; for the
+trap-freedom part `Uflow/Lemmas/FrameQReorder.lean` (`RInv`, `Buffered`) and
+`Uflow/Lemmas/FrameQNoTrap.lean` (`AckInv`).
 -/
 
 namespace Uflow.Props.C15
@@ -14,5 +26,226 @@ theorem C15_empty_group_noop (s : State) (b : Nat) (n : Bool) (rtt : Option Nat)
     acknowledgeGroup s { baseId := b, bitfield := 0, nonce := n } rtt = .ok (s, []) := by
   have h : bitfieldSize 0 = 0 := by decide
   simp [acknowledgeGroup, h]
+
+/-- (1) A group covering an id that is not in the frame log is ignored entirely. -/
+theorem C15_unknown_frame_noop (s : State) (ack : AckGroup) (rtt : Option Nat) (i : Nat)
+    (hi : i < bitfieldSize ack.bitfield) (hunk : getFrame s (wadd32 ack.baseId i) = none) :
+    acknowledgeGroup s ack rtt = .ok (s, []) :=
+  acknowledgeGroup_unknown s ack rtt i hi hunk
+
+/-- (2) A group whose nonce differs from the XOR of the nonces of the claimed frames is ignored
+entirely. -/
+theorem C15_bad_nonce_noop (s : State) (ack : AckGroup) (rtt : Option Nat)
+    (hall : ∀ i, i < bitfieldSize ack.bitfield → getFrame s (wadd32 ack.baseId i) ≠ none)
+    (hn : ack.nonce ≠ claimedNonce s ack) :
+    acknowledgeGroup s ack rtt = .ok (s, []) :=
+  acknowledgeGroup_bad_nonce s ack rtt hall hn
+
+/-- (3) If a group has any effect, all covered ids were logged, the nonce was right, and every
+returned fragment reference comes from a claimed, not yet acked frame of `s`. -/
+theorem C15_accept_sound (s s' : State) (ack : AckGroup) (rtt : Option Nat)
+    (frs : List (Nat × Nat)) (h : acknowledgeGroup s ack rtt = .ok (s', frs))
+    (hne : (s', frs) ≠ (s, [])) :
+    (∀ i, i < bitfieldSize ack.bitfield → getFrame s (wadd32 ack.baseId i) ≠ none) ∧
+    ack.nonce = claimedNonce s ack ∧
+    (∀ p, p ∈ frs → ∃ i e, i < bitfieldSize ack.bitfield ∧ ack.bitfield / 2^i % 2 = 1 ∧
+        getFrame s (wadd32 ack.baseId i) = some e ∧ e.acked = false ∧ p ∈ e.refs) := by
+  rcases acknowledgeGroup_inv h with ⟨h1, h2⟩ | ⟨hall, hn, s2, lst, tot, rl, hl, _⟩
+  · exact absurd (by rw [h1, h2]) hne
+  · refine ⟨hall, hn, ?_⟩
+    obtain ⟨_, _, hmem⟩ := ackLoop_spec ack rtt _ _ _ _ _ _ _ _ _ _ _ hl
+    intro p hp
+    rcases hmem p hp with hp | ⟨i, hi, hb, e, he, ha, hpe⟩
+    · cases hp
+    · exact ⟨i, e, List.mem_range.mp hi, hb, he, ha, hpe⟩
+
+/-- (3') The fragment-reference part of (3) holds for every non-trapping call. -/
+theorem C15_acked_fragments_sound (s s' : State) (ack : AckGroup) (rtt : Option Nat)
+    (frs : List (Nat × Nat)) (h : acknowledgeGroup s ack rtt = .ok (s', frs)) :
+    ∀ p, p ∈ frs → ∃ i e, i < bitfieldSize ack.bitfield ∧ ack.bitfield / 2^i % 2 = 1 ∧
+        getFrame s (wadd32 ack.baseId i) = some e ∧ e.acked = false ∧ p ∈ e.refs := by
+  rcases acknowledgeGroup_inv h with ⟨_, h2⟩ | ⟨_, _, s2, lst, tot, rl, hl, _⟩
+  · subst h2; intro p hp; cases hp
+  · obtain ⟨_, _, hmem⟩ := ackLoop_spec ack rtt _ _ _ _ _ _ _ _ _ _ _ hl
+    intro p hp
+    rcases hmem p hp with hp | ⟨i, hi, hb, e, he, ha, hpe⟩
+    · cases hp
+    · exact ⟨i, e, List.mem_range.mp hi, hb, he, ha, hpe⟩
+
+/-- (4) Replay: if every claimed frame that is in the log is already acked, the group changes
+nothing: the whole state (`ackData`, `intervals`, `reorder`, log entries, …) is returned unchanged
+and no fragment is acknowledged. No assumption on frame sizes is needed. -/
+theorem C15_replay_noop (s : State) (ack : AckGroup) (rtt : Option Nat)
+    (hacked : ∀ i, i < bitfieldSize ack.bitfield → ack.bitfield / 2^i % 2 = 1 →
+      ∀ e, getFrame s (wadd32 ack.baseId i) = some e → e.acked = true) :
+    acknowledgeGroup s ack rtt = .ok (s, []) :=
+  acknowledgeGroup_replay s ack rtt hacked
+
+/-- `acknowledgeGroup` never removes or reorders log entries: only `ackData`, `reorder`,
+`intervals` and the `acked`/`refs` fields of entries can change (`EntryLe`). -/
+theorem C15_log_preserved (s s1 : State) (ack : AckGroup) (rtt : Option Nat)
+    (f1 : List (Nat × Nat)) (h : acknowledgeGroup s ack rtt = .ok (s1, f1)) :
+    s1.logBase = s.logBase ∧ s1.logNext = s.logNext ∧ s1.frames.length = s.frames.length ∧
+    s1.lastFeedback = s.lastFeedback ∧ s1.winBase = s.winBase ∧ s1.winSize = s.winSize ∧
+    s1.tailSize = s.tailSize ∧ s1.rateLimited = s.rateLimited ∧
+    (∀ id e, getFrame s id = some e → ∃ e', getFrame s1 id = some e' ∧ EntryLe e e') ∧
+    (∀ id, getFrame s1 id = none ↔ getFrame s id = none) := by
+  have hrel := acknowledgeGroup_rel h
+  have hfr : ∀ id e, getFrame s id = some e → ∃ e', getFrame s1 id = some e' ∧ EntryLe e e' := by
+    intro id e he
+    have := hrel.frames (wsub32 id s.logBase) e he
+    have hb := hrel.logBase
+    simp only [] at this hb
+    unfold getFrame
+    rw [hb]; exact this
+  refine ⟨hrel.logBase, hrel.logNext, hrel.len, hrel.lastFeedback, hrel.winBase, hrel.winSize,
+    hrel.tailSize, hrel.rateLimited, hfr, ?_⟩
+  intro id
+  have hb : s1.logBase = s.logBase := hrel.logBase
+  have hlen : s1.frames.length = s.frames.length := hrel.len
+  unfold getFrame
+  rw [hb, List.getElem?_eq_none_iff, List.getElem?_eq_none_iff, hlen]
+
+/-- An accepted group leaves all its claimed frames marked acked. -/
+theorem C15_accept_marks_acked (s s1 : State) (ack : AckGroup) (rtt : Option Nat)
+    (f1 : List (Nat × Nat)) (h : acknowledgeGroup s ack rtt = .ok (s1, f1))
+    (hall : ∀ i, i < bitfieldSize ack.bitfield → getFrame s (wadd32 ack.baseId i) ≠ none)
+    (hn : ack.nonce = claimedNonce s ack) :
+    ∀ i, i < bitfieldSize ack.bitfield → ack.bitfield / 2^i % 2 = 1 →
+      ∃ e, getFrame s1 (wadd32 ack.baseId i) = some e ∧ e.acked = true :=
+  acknowledgeGroup_marks h hall hn
+
+/-- (5) Idempotence: re-applying the same group to the resulting state has no effect (no
+side condition needed: the log entries are still present by `C15_log_preserved`). -/
+theorem C15_idempotent (s s1 : State) (ack : AckGroup) (rtt : Option Nat)
+    (f1 : List (Nat × Nat)) (h : acknowledgeGroup s ack rtt = .ok (s1, f1)) :
+    acknowledgeGroup s1 ack rtt = .ok (s1, []) := by
+  rcases acknowledgeGroup_inv h with ⟨h1, h2⟩ | ⟨hall, hn, _⟩
+  · subst h1; subst h2; exact h
+  · apply acknowledgeGroup_replay
+    intro i hi hb e he
+    obtain ⟨e', he', ha⟩ := acknowledgeGroup_marks h hall hn i hi hb
+    rw [he] at he'; cases he'; exact ha
+
+/-- (6) A stale (`nb = winBase`) or future (beyond `logNext`) transfer-window base is ignored. -/
+theorem C15_window_stale_noop (s : State) (nb : Nat) (rtt : Option Nat)
+    (h : nb = s.winBase ∨ wsub32 nb s.winBase > wsub32 s.logNext s.winBase) :
+    advanceTransferWindow s nb rtt = .ok s := by
+  unfold advanceTransferWindow
+  have hc : canAdvanceTransferWindow s nb = false := by
+    unfold canAdvanceTransferWindow
+    rcases h with h | h
+    · subst h
+      have : wsub32 s.winBase s.winBase = 0 := by unfold wsub32; omega
+      simp [this]
+    · simp only [decide_eq_false_iff_not, not_and, Nat.not_le]
+      intro _; exact h
+  rw [hc]
+  rfl
+
+/-! ### Trap freedom (optional part)
+
+`AckInv s` (`Uflow/Lemmas/FrameQNoTrap.lean`) says: with `lb := s.logBase`, `len := s.frames.length`,
+`pos x := wsub32 x lb`, `r := s.reorder`:
+`len + r.maxSpan ≤ 2^32`, `r.baseId < 2^32`, `pos r.baseId ≤ len`, `r.count ≤ 2`,
+the buffered ids (`f0` if `count ≥ 1`, `f1` if `count = 2`) are `< 2^32`, lie strictly after the
+buffer base, in order (`pos baseId < pos f0 < pos f1 < len`), and are marked `acked` in the log. -/
+
+/-- Under `AckInv`, `acknowledgeGroup` never traps, and it re-establishes `AckInv`.
+*Partial* with respect to "never traps in reachable states": `AckInv` is shown to hold initially
+(`C15_ackInv_init`) and to be preserved by `acknowledgeGroup` (here) and `push`
+(`C15_ackInv_push`, under an explicit length bound), but its preservation by
+`cull` / `advanceTransferWindow` / `forgetFrames` (`Reorder.advance`, log draining) is not proved. -/
+theorem C15_no_trap_partial (s : State) (ack : AckGroup) (rtt : Option Nat) (hinv : AckInv s) :
+    ∃ s' frs, acknowledgeGroup s ack rtt = .ok (s', frs) ∧ AckInv s' :=
+  acknowledgeGroup_no_trap s ack rtt hinv
+
+theorem C15_ackInv_init (size tail base : Nat) (hb : base < 2^32) :
+    AckInv (init size tail base) :=
+  AckInv_init size tail base hb
+
+theorem C15_ackInv_push (s : State) (size now : Nat) (refs : List (Nat × Nat)) (nonce : Bool)
+    (hinv : AckInv s) (hlen : s.frames.length + 1 + s.reorder.maxSpan ≤ 2^32) :
+    AckInv (push s size now refs nonce) :=
+  AckInv_push s size now refs nonce hinv hlen
+
+/-! ### Non-vacuity examples
+
+`exS5` (`Uflow/Lemmas/FrameQExamples.lean`) is a log of 5 frames (ids 100 … 104, nonces T F T T F)
+built with `push`; `exGood` claims 100, 102, 104 with the right nonce, `exBadNonce` the same with
+the wrong nonce, `exStraddle` covers 103 … 105 (105 is beyond the log end). -/
+
+example : bitfieldSize exGood.bitfield = 5 ∧ bitfieldSize exStraddle.bitfield = 3 := by
+  decide +kernel
+
+/-- (1) hypotheses: covered id 105 is unknown; conclusion evaluated on the model. -/
+example : 2 < bitfieldSize exStraddle.bitfield ∧
+    getFrame exS5 (wadd32 exStraddle.baseId 2) = none ∧
+    acknowledgeGroup exS5 exStraddle none = .ok (exS5, []) := by decide +kernel
+
+/-- (2) hypotheses: all covered ids logged, nonce wrong; conclusion evaluated on the model. -/
+example : (∀ i, i < bitfieldSize exBadNonce.bitfield →
+      getFrame exS5 (wadd32 exBadNonce.baseId i) ≠ none) ∧
+    exBadNonce.nonce ≠ claimedNonce exS5 exBadNonce ∧
+    acknowledgeGroup exS5 exBadNonce none = .ok (exS5, []) := by decide +kernel
+
+/-- (3), (5), `C15_log_preserved`: the correct group is accepted, changes the state, and returns
+exactly the fragments of the claimed frames 100 and 104 (frame 102 carries none). -/
+example : ∃ s' frs, acknowledgeGroup exS5 exGood none = .ok (s', frs) ∧ (s', frs) ≠ (exS5, []) ∧
+    frs = [(1, 0), (4, 0)] ∧ s' = exS5acked := by
+  have h : (match acknowledgeGroup exS5 exGood none with
+      | .ok (s', frs) => decide ((s', frs) ≠ (exS5, []) ∧ frs = [(1, 0), (4, 0)] ∧ s' = exS5acked)
+      | .error _ => false) = true := by decide +kernel
+  revert h
+  cases acknowledgeGroup exS5 exGood none with
+  | error t => intro h; cases h
+  | ok v => intro h; exact ⟨v.1, v.2, rfl, of_decide_eq_true h⟩
+
+/-- `C15_accept_marks_acked` hypotheses hold for the correct group. -/
+example : (∀ i, i < bitfieldSize exGood.bitfield →
+      getFrame exS5 (wadd32 exGood.baseId i) ≠ none) ∧
+    exGood.nonce = claimedNonce exS5 exGood := by decide +kernel
+
+/-- (4) hypothesis: in `exS5acked` (state after accepting `exGood`) every claimed frame is acked,
+while not all covered frames are (101, 103 are not); the replay is a no-op, also on the model. -/
+example : (∀ i, i < bitfieldSize exGood.bitfield → exGood.bitfield / 2^i % 2 = 1 →
+      ∀ e, getFrame exS5acked (wadd32 exGood.baseId i) = some e → e.acked = true) ∧
+    (getFrame exS5acked 101).map (·.acked) = some false ∧
+    exS5acked.ackData ≠ none ∧
+    acknowledgeGroup exS5acked exGood none = .ok (exS5acked, []) := by
+  refine ⟨?_, by decide +kernel, by decide +kernel, by decide +kernel⟩
+  have h : ∀ i, i < bitfieldSize exGood.bitfield → exGood.bitfield / 2^i % 2 = 1 →
+      (getFrame exS5acked (wadd32 exGood.baseId i)).map (·.acked) = some true := by
+    decide +kernel
+  intro i hi hb e he
+  have := h i hi hb
+  rw [he] at this
+  exact Option.some.inj this
+
+/-- (6) stale (`nb = winBase = 100`) and future (`106 > logNext = 105`) bases satisfy the
+hypothesis; an in-range base (102) does change the state. -/
+example : (100 = exS5.winBase ∨ wsub32 100 exS5.winBase > wsub32 exS5.logNext exS5.winBase) ∧
+    (106 = exS5.winBase ∨ wsub32 106 exS5.winBase > wsub32 exS5.logNext exS5.winBase) ∧
+    advanceTransferWindow exS5 102 none ≠ .ok exS5 := by decide +kernel
+
+/-- `AckInv` holds for the example log (via `C15_ackInv_init` / `C15_ackInv_push`) … -/
+example : AckInv exS5 := by
+  unfold exS5
+  refine C15_ackInv_push _ _ _ _ _ (C15_ackInv_push _ _ _ _ _ (C15_ackInv_push _ _ _ _ _
+    (C15_ackInv_push _ _ _ _ _ (C15_ackInv_push _ _ _ _ _ (C15_ackInv_init 16 4 100 (by decide))
+      ?_) ?_) ?_) ?_) ?_ <;> decide +kernel
+
+/-- … and, by `C15_no_trap_partial`, for the state after the accepted group, whose reorder buffer
+is non-trivial (two buffered frames 102 and 104 behind the hole 101). -/
+example : AckInv exS5acked ∧ exS5acked.reorder.count = 2 ∧ exS5acked.reorder.baseId = 101 := by
+  refine ⟨?_, by decide +kernel, by decide +kernel⟩
+  have hinv : AckInv exS5 := by
+    unfold exS5
+    refine C15_ackInv_push _ _ _ _ _ (C15_ackInv_push _ _ _ _ _ (C15_ackInv_push _ _ _ _ _
+      (C15_ackInv_push _ _ _ _ _ (C15_ackInv_push _ _ _ _ _ (C15_ackInv_init 16 4 100 (by decide))
+        ?_) ?_) ?_) ?_) ?_ <;> decide +kernel
+  obtain ⟨s', frs, h, hinv'⟩ := C15_no_trap_partial exS5 exGood none hinv
+  have : exS5acked = s' := by unfold exS5acked; rw [h]
+  rw [this]; exact hinv'
 
 end Uflow.Props.C15
